@@ -1,11 +1,11 @@
 // C05: ExplicitTreeAut::Reduce() on a symbolic automaton over the rule universe U(NS, SYM_RANKS) (sub-universe RMASK),
 // built with the concrete state numbers RENAME (a brace list: dense, permuted or sparse numbering), optionally composed
-// with a symbolic permutation (PERM=1).  The result is decoded by iterating it (up to its state numbering) and compared
-// with the input: same language (both inclusions, macro-state oracle), no more states, no more rules, operand unchanged.
+// with a symbolic permutation (PERM=1).  The result is decoded by iterating it and compared with the input:
+// same language (both inclusions, macro-state oracle), no more states, no more rules, every state of the result is a
+// state of the input (the representative that the input states were mapped to), operand unchanged.
 // Solver variables: rule presence bits, finality bits, permutation bits.
 #include <vata/explicit_tree_aut.hh>
 #include "sim_oracle.h"
-#include "decode_free.h"
 using namespace VATA;
 #ifndef RENAME
 #define RENAME {0, 1, 2, 3}
@@ -55,16 +55,14 @@ extern "C" void harness(void)
   ExplicitTreeAut res = aut.Reduce();
 
   // ---- the property
-  // The result is decoded independently of its state numbers (decode_free.h: slots in order of first occurrence).  Reduce
-  // returns no translation map, so WHICH numbers the states of the result carry (today: the number of one representative
-  // per class) is not part of the contract: "every state of the result is the image of at least one state of A" is
-  // observable only as "at most as many states" (id 3).  More than NS distinct states (id 1 fails) means more states than A
-  // can have.  A renumbering Reduce (e.g. dense class indices) passes all of this.
-  SA R; U::Slots<NS> slots; CHECK((U::decodeFree<NS>(res, R, slots)), 1);   // <= NS distinct states, only universe symbols with their rank
-  const unsigned occA = U::occurring(A), occR = U::occurring(R);            // occR: over the slots of the result
-#ifdef STRICT_IMPL   // never defined: implementation detail of the current Reduce (representatives keep their number)
-  { SA Rs; CHECK(decode(res, ren, Rs), 1); CHECK((U::occurring(Rs) & ~occA) == 0, 2); }
-#endif
+  SA R; CHECK(decode(res, ren, R), 1);                      // only rules over states of A, symbols of A
+  const unsigned occA = U::occurring(A), occR = U::occurring(R);
+  // ids 1 + 2 are the image clause of the statement ("every state [of the result] is the image of at least one state of A"):
+  // Reduce reports no state map, so the only non-vacuous reading is that the quotient projection maps states of A to states
+  // of A and the result lives on those representatives, i.e. states(result) is a subset of states(A).  This is deliberately
+  // NOT relaxed to a numbering-independent decoding: a Reduce whose result carries numbers that are no states of A (seeded
+  // defect C05-m3: internal 0..n-1 indices for sparsely numbered input) violates the clause although language and sizes are fine.
+  CHECK((occR & ~occA) == 0, 2);                            // every state of the result is (the representative of) a state of A
 #ifdef VS_SELFTEST_1
   CHECK(popcount(occR) < popcount(occA) || occA == 0, 3);   // seeded wrong expectation: "always strictly fewer states"
 #else
